@@ -1,7 +1,8 @@
 (** Statement pins for C10. *)
 From RsM Require Import Lib.MachInt Model.Dedup Model.Mrp Model.Exchange Model.ExchangeSpec
+  Model.ExchangeTx
   Proofs.ExchangeFacts Proofs.ExchangeSys Proofs.ExchangeTheorems Proofs.ExchangeLifecycle
-  Proofs.ExchangeSpecFacts Props.C10.
+  Proofs.ExchangeSpecFacts Proofs.ExchangeTx Props.C10.
 Open Scope N_scope.
 
 Check (C10_routing_sound : forall s l s' ev,
@@ -34,6 +35,7 @@ Check (C10_unknown_dropped : forall s m se,
   rx s = RxEmpty -> find_key (sessions s) (m_key m) = Some se ->
   find_exch (s_exchs se) m = None ->
   (m_init m = false \/ is_new_exchange (m_op m) = false) ->
+  is_close (m_op m) = false ->
   exists s' ev, step false s (LRx m) = Some (s', ev) /\
     rx s' = RxEmpty /\ handles s' = handles s /\
     (ev = [] \/ ev = [EvDupAck (m_key m) (m_ctr m)]) /\
@@ -56,9 +58,11 @@ Check (C10_closed_cleanly : forall s,
     ( (retrans_pending e = true /\ ev = [EvCloseSession sid i] /\
        sessions s' = remove_sid (sessions s) sid)
       \/
-      (retrans_pending e = false /\ sessions s' = set_slot (sessions s) sid i None /\
-       ( (ack_pending e = true /\ exists c, ev = [EvStandaloneAck sid i c])
-         \/ (ack_pending e = false /\ ev = []))))).
+      (retrans_pending e = false /\ sessions s' = group_gc (set_slot (sessions s) sid i None) sid /\
+       ( (is_group_sid (sessions s) sid = true /\ ev = [])
+         \/ (is_group_sid (sessions s) sid = false /\ ack_pending e = true /\
+             exists c, ev = [EvStandaloneAck sid i c])
+         \/ (is_group_sid (sessions s) sid = false /\ ack_pending e = false /\ ev = []))))).
 Check (C10_dropped_is_absorbing : forall s l s' ev se se' i id r,
   reachable s -> step false s l = Some (s', ev) ->
   In se (sessions s) -> In se' (sessions s') -> s_id se' = s_id se ->
@@ -89,3 +93,26 @@ Check (DisOwned : forall s m se i e,
   discharger s m).
 Check (eq_refl : ACCEPT_TIMEOUT_MS = 1000).
 Check (eq_refl : MAX_EXCHANGES = 5%nat).
+Check (C10_peer_close_honoured : forall s m se,
+  reachable s -> rx s = RxEmpty -> find_key (sessions s) (m_key m) = Some se ->
+  snd (post_recv (s_win se) (m_ctr m) (s_enc se) false) = true ->
+  m_op m = OpScClose ->
+  (find_exch (s_exchs se) m = None \/ m_ack m = None) ->
+  exists s', step false s (LRx m) = Some (s', [EvPeerClosed (s_id se)]) /\
+    rx s' = RxEmpty /\ handles s' = handles s /\
+    (forall x, In x (sessions s') -> In x (sessions s) /\ s_id x <> s_id se)).
+Check (C10_tx_no_wedge : forall s, reachablex s -> tx_discharger s).
+Check (C10_tx_queued_only_flushed : forall s l s' ev v,
+  stepx false s l = Some (s', ev) -> tx s = TxQueued v ->
+  tx s' = TxQueued v \/ (l = XFlush /\ tx s' = TxEmpty)).
+Check (C10_no_wedge_with_tx : forall s m,
+  reachablex s -> rx (core s) = RxHolding m -> discharger (core s) m).
+Check (TxdQueued : forall s v, tx s = TxQueued v ->
+  (exists s' ev, stepx false s XFlush = Some (s', ev) /\ tx s' = TxEmpty) -> tx_discharger s).
+Check (TxdTaken : forall s sid idx, tx s = TxTaken sid idx ->
+  In (sid, idx) (handles (core s)) ->
+  (forall ctr rel, exists s' ev, stepx false s (XComplete sid idx ctr rel) = Some (s', ev) /\
+                     (tx s' = TxEmpty \/ tx s' = TxQueued (Some sid))) ->
+  (exists s' ev, stepx false s (XAbandon sid idx) = Some (s', ev) /\ tx s' = TxEmpty) ->
+  (exists s' ev, stepx false s (XCore (LDropExch sid idx)) = Some (s', ev) /\ tx s' = TxEmpty) ->
+  tx_discharger s).
